@@ -399,9 +399,21 @@ func (b *Backend) Exec(op Op) (obs Obs, ok bool) {
 			if d <= 0 {
 				d = 5 * time.Millisecond
 			}
-			c2, cancel := context.WithTimeout(ctx, d)
-			defer cancel()
-			err := b.S.WaitForVersionChange(c2, op.Key, ver)
+			// A short context can run out before the first look at the record when the machine is busy
+			// (go-redis then fails the GET with the context's error): the context's error of a short wait
+			// is reported only if it persists over three attempts with deadlines d, 4d, 16d. The call
+			// changes nothing, so repeating it is harmless; the last attempt is the observation.
+			var err error
+			for attempt := 0; attempt < 3; attempt++ {
+				obs.T0 = b.now()
+				c2, cancel := context.WithTimeout(ctx, d)
+				err = b.S.WaitForVersionChange(c2, op.Key, ver)
+				cancel()
+				if Class(err) != "OCtx" || d >= 100*time.Millisecond {
+					break
+				}
+				d *= 4
+			}
 			obs.T1 = b.now()
 			out = Class(err)
 		})
